@@ -213,7 +213,12 @@ def evaluate(m, stop_early=True, pre=None):
         return row
     apply(m, REPO)
     order = ORDER[os.path.basename(m["file"])]
-    order = order + [c for c in ALL if c not in order]
+    if stop_early:
+        # campaign mode: the checks of the properties anchored in the file, then the general round-trip /
+        # validator / sweep checks; `one <index>` runs all twenty
+        order = order + [c for c in ("C01", "C02", "C03", "C04", "C08", "C19") if c not in order and not m["file"].startswith("tools/")]
+    else:
+        order = order + [c for c in ALL if c not in order]
     row["checks"] = {}
     row["verdict"] = "survivor"
     for c in order:
